@@ -39,6 +39,15 @@ func (p *InsertionParameters) ValidateShape(treeDepth uint32, batchSize uint32) 
 	return nil
 }
 
+// leftPad32 extends a big-endian byte string to 32 bytes if necessary,
+// maintaining big-endian ordering.
+func leftPad32(b []byte) []byte {
+	if len(b) < 32 {
+		b = append(make([]byte, 32-len(b)), b...)
+	}
+	return b
+}
+
 // ComputeInputHash computes the input hash to the prover and verifier.
 //
 // It uses big-endian byte ordering (network ordering) in order to agree with
@@ -52,8 +61,8 @@ func (p *InsertionParameters) ComputeInputHashInsertion() error {
 		return err
 	}
 	data = append(data, buf.Bytes()...)
-	data = append(data, p.PreRoot.Bytes()...)
-	data = append(data, p.PostRoot.Bytes()...)
+	data = append(data, leftPad32(p.PreRoot.Bytes())...)
+	data = append(data, leftPad32(p.PostRoot.Bytes())...)
 	for _, v := range p.IdComms {
 		idBytes := v.Bytes()
 		// extend to 32 bytes if necessary, maintaining big-endian ordering
